@@ -136,6 +136,29 @@ def run(ctx):
             ctx.fail("the result of a user transformer applied to a named tree, once named itself, does not carry "
                      "distinct names on exactly the operands, mapped to their paths",
                      {"tree": d, "renamed": out2, "map": [[k, list(v)] for k, v in m2.items()]})
+    # ---- a query and a filter with the same text, each parsed on its own, joined in one tree and named: the two
+    # parses are two trees (seeded C15-H: parse results memoised by text, the SAME object twice in the tree)
+    from .. import parsing
+    qg2 = gen.QueryGen(rng)
+    for _ in range(ctx.budget(40, 600)):
+        q = qg2.query()
+        _, t1 = parsing.impl_parse(q, "module", history=False)
+        _, t2 = parsing.impl_parse(q, "module", history=False)
+        if t1 is None or t2 is None:
+            continue
+        joined = rng.choice([I.tree.AndOperation, I.tree.OrOperation])(I.tree.Group(t1), I.tree.Group(t2))
+        try:
+            m3 = I.naming.auto_name(joined)
+        except Exception:
+            continue
+        out3 = common.dump_tree(joined)
+        ctx.count("the same text parsed twice, joined, named")
+        named3 = {p: n["n"] for p, n in common.tree_nodes(out3) if n["n"] is not None}
+        exp3 = [p + (i,) for p, n in common.tree_nodes(out3) if n["c"].endswith("Operation") for i in range(len(n["ch"]))]
+        if sorted(named3) != sorted(exp3) or len(set(named3.values())) != len(named3) or \
+                {k: tuple(v) for k, v in m3.items()} != {v: p for p, v in named3.items()}:
+            ctx.fail("two parses of the same text joined in one tree: the names are not distinct names of exactly the "
+                     "operands, mapped to their paths", {"q": q, "named": out3, "map": [[k, list(v)] for k, v in m3.items()]})
     if ctx.model_ok:
         for r, a, e in zip(reqs, common.ask_model(reqs), exp):
             if a != e:
